@@ -80,6 +80,8 @@ type Interp struct {
 	Bag []string
 	// host-call fault injection: the FaultAt-th emit raises FaultValue (0 = off)
 	EmitCount int
+	// HandlerDepth > 0 while an xpcall message handler runs.
+	HandlerDepth int
 	// StackLimit: if >0, a Lua call deeper than this raises a "stack overflow" run-time error.
 	StackLimit int
 }
